@@ -549,7 +549,8 @@ pub fn enumerate_ops(m: &MapProofM, w: &MapWorld, tree_ops_cap: usize, rng: &mut
 
 pub fn judge(w: &MapWorld, m: &MapProofM, class: &str, mon: &mut Monitor) -> Verdict {
     mon.eval();
-    mon.count(&format!("c:mutator:{class}"));
+    let cc = crate::viol::counter_class(class);
+    mon.count(&format!("c:mutator:{cc}"));
     let bytes = bincode_encode(m);
     let p = match catch(|| MKMapProof::<Key>::from_bytes(&bytes)) {
         Ok(Ok(p)) => p,
@@ -597,7 +598,7 @@ pub fn judge(w: &MapWorld, m: &MapProofM, class: &str, mon: &mut Monitor) -> Ver
         if fc.is_empty() {
             if class != "identity" {
                 mon.count("c:verifies_but_claims_true");
-                mon.count(&format!("c:verifies_but_claims_true:{class}"));
+                mon.count(&format!("c:verifies_but_claims_true:{cc}"));
             }
         } else {
             let shape = witness_shape_top(m, &w.top).unwrap_or_else(|| "other".into());
@@ -608,17 +609,13 @@ pub fn judge(w: &MapWorld, m: &MapProofM, class: &str, mon: &mut Monitor) -> Ver
                 .filter(|x| p.contains(&MKTreeNode::new((*x).clone())).is_ok())
                 .map(hex::encode)
                 .collect();
-            mon.violation(
-                &format!("C09 MKMapProof verifies against the committed root but lists a non-committed entry: {shape}"),
-                &format!(
+            crate::viol::report(mon, &format!("C09 MKMapProof verifies against the committed root but lists a non-committed entry: {shape}"), || format!(
                     "MKMapProof::verify = Ok and compute_root() equals the committed map root, yet {} of {} listed entries are false: {}; contains() = Ok for non-committed node(s) [{}]; mutation class {class}",
                     fc.len(),
                     total,
                     fc[0],
                     vouched.join(", ")
-                ),
-                json!({"kind": "mkmap", "map": w.to_json(), "proof": m.to_json(), "class": class, "witness_shape": shape, "false_claims": fc}),
-            );
+                ), || json!({"kind": "mkmap", "map": w.to_json(), "proof": m.to_json(), "class": class, "witness_shape": shape, "false_claims": fc}));
         }
         // contains may only answer from what the proof lists
         let mut pool: Vec<Bytes> = w.bottom.iter().take(40).cloned().collect();
@@ -629,11 +626,7 @@ pub fn judge(w: &MapWorld, m: &MapProofM, class: &str, mon: &mut Monitor) -> Ver
             let ok = p.contains(&MKTreeNode::new(x.clone())).is_ok();
             let is_listed = listed.contains(&x);
             if ok && !is_listed {
-                mon.violation(
-                    "C09 MKMapProof::contains succeeds for a node the verified proof does not list",
-                    &format!("contains(0x{}) = Ok although no proof of the map proof covers it", hex::encode(&x)),
-                    json!({"kind": "mkmap", "map": w.to_json(), "proof": m.to_json(), "class": class}),
-                );
+                crate::viol::report(mon, "C09 MKMapProof::contains succeeds for a node the verified proof does not list", || format!("contains(0x{}) = Ok although no proof of the map proof covers it", hex::encode(&x)), || json!({"kind": "mkmap", "map": w.to_json(), "proof": m.to_json(), "class": class}));
             }
             if ok && w.master_level.contains(&x) {
                 mon.count("c:contains_ok_for_master_level_leaf(H(key||root))");
@@ -688,11 +681,7 @@ pub fn honest(w: &MapWorld, sel: &[Bytes], mon: &mut Monitor) -> Option<MapProof
     let proof = match catch(|| w.real.compute_proof(&nodes)) {
         Ok(Ok(p)) => p,
         other => {
-            mon.violation(
-                "C09 MKMap::compute_proof fails for committed leaves",
-                &format!("{:?}", other.map(|r| r.map(|_| ()).map_err(|e| e.to_string()))),
-                json!({"kind": "mkmap-gen", "map": w.to_json(), "selection": sel.iter().map(hex::encode).collect::<Vec<_>>()}),
-            );
+            crate::viol::report(mon, "C09 MKMap::compute_proof fails for committed leaves", || format!("{:?}", other.map(|r| r.map(|_| ()).map_err(|e| e.to_string()))), || json!({"kind": "mkmap-gen", "map": w.to_json(), "selection": sel.iter().map(hex::encode).collect::<Vec<_>>()}));
             return None;
         }
     };
@@ -715,28 +704,16 @@ pub fn honest(w: &MapWorld, sel: &[Bytes], mon: &mut Monitor) -> Option<MapProof
     let (mut fc, mut total) = (vec![], 0);
     false_claims_top(&m, &w.top, &mut fc, &mut total);
     if !ok || !all_contained {
-        mon.violation(
-            "C09 honest MKMapProof rejected",
-            &format!("verify ok: {ok}, contains all selected leaves: {all_contained}"),
-            json!({"kind": "mkmap", "map": w.to_json(), "proof": m.to_json(), "class": "identity"}),
-        );
+        crate::viol::report(mon, "C09 honest MKMapProof rejected", || format!("verify ok: {ok}, contains all selected leaves: {all_contained}"), || json!({"kind": "mkmap", "map": w.to_json(), "proof": m.to_json(), "class": "identity"}));
     }
     if !root_ok || listed != want || !fc.is_empty() {
-        mon.violation(
-            "C09 generated MKMapProof disagrees with the reference map (root / listed leaves / positions)",
-            &format!("root equal: {root_ok}, listed leaves equal selection: {}, false entries: {:?}", listed == want, fc.first()),
-            json!({"kind": "mkmap-gen", "map": w.to_json(), "proof": m.to_json(), "selection": sel.iter().map(hex::encode).collect::<Vec<_>>()}),
-        );
+        crate::viol::report(mon, "C09 generated MKMapProof disagrees with the reference map (root / listed leaves / positions)", || format!("root equal: {root_ok}, listed leaves equal selection: {}, false entries: {:?}", listed == want, fc.first()), || json!({"kind": "mkmap-gen", "map": w.to_json(), "proof": m.to_json(), "selection": sel.iter().map(hex::encode).collect::<Vec<_>>()}));
     }
     // contains answers exactly for the selection among bottom leaves
     for x in w.bottom.iter().take(60) {
         let ok = proof.contains(&MKTreeNode::new(x.clone())).is_ok();
         if ok != sel.contains(x) {
-            mon.violation(
-                "C09 honest MKMapProof::contains differs from the selection",
-                &format!("contains(0x{}) = {ok}", hex::encode(x)),
-                json!({"kind": "mkmap", "map": w.to_json(), "proof": m.to_json(), "class": "identity"}),
-            );
+            crate::viol::report(mon, "C09 honest MKMapProof::contains differs from the selection", || format!("contains(0x{}) = {ok}", hex::encode(x)), || json!({"kind": "mkmap", "map": w.to_json(), "proof": m.to_json(), "class": "identity"}));
         }
     }
     Some(m)
@@ -745,11 +722,7 @@ pub fn honest(w: &MapWorld, sel: &[Bytes], mon: &mut Monitor) -> Option<MapProof
 pub fn run_selection(w: &MapWorld, sel: &[Bytes], tree_ops_cap: usize, pairs: usize, rng: &mut ChaCha20Rng, mon: &mut Monitor) {
     let Some(m) = honest(w, sel, mon) else { return };
     if judge(w, &m, "identity", mon) != Verdict::Accepted {
-        mon.violation(
-            "C09 honest MKMapProof rejected after the bincode round trip",
-            "from_bytes(to_bytes(proof)).verify() is not Ok or its root differs from the reference root",
-            json!({"kind": "mkmap", "map": w.to_json(), "proof": m.to_json(), "class": "identity"}),
-        );
+        crate::viol::report(mon, "C09 honest MKMapProof rejected after the bincode round trip", || "from_bytes(to_bytes(proof)).verify() is not Ok or its root differs from the reference root".to_string(), || json!({"kind": "mkmap", "map": w.to_json(), "proof": m.to_json(), "class": "identity"}));
     }
     if mon.wants_sample() && m.sub_proofs.len() >= 2 {
         mon.sample(json!({"part": "c", "ranges": w.top.entries.iter().map(|e| json!([e.0 .0, e.0 .1])).collect::<Vec<_>>(),
